@@ -52,6 +52,10 @@ pub struct Spec {
     pub parent_delay: Delay,
     pub buflen: u16,
     pub tag: u64,
+    /// the closure (which returns) first delivers a spurious wake-up on its own exit futex - a FUTEX_WAKE
+    /// that leaves the word unchanged, as futex(2) allows at any time - and then keeps running for 2 ms
+    #[serde(default)]
+    pub spurious: bool,
 }
 
 impl Spec {
@@ -69,7 +73,7 @@ pub fn encode_batch(b: &Batch) -> Vec<u8> {
     let mut pl = vec![1u8, b.specs.len() as u8, 0, 0];
     for s in &b.specs {
         pl.push(s.ty);
-        pl.push(s.panic as u8);
+        pl.push(if s.spurious && !s.panic { 2 } else { s.panic as u8 });
         pl.push(s.disp);
         pl.push(s.inline as u8);
         pl.push(s.child_delay.kind());
@@ -236,6 +240,8 @@ pub struct SpecRep {
     pub join_class: u8,
     /// 0 = the address the thread used on its own stack is unmapped, 1 = mapped with other content, 2 = still holds the thread's value
     pub canary: u8,
+    /// spurious specs: 1 = the wake-up woke a parked waiter, 2 = nobody was parked, 3 = address unavailable
+    pub woke: u8,
     pub run: u32,
     pub tid: u32,
     pub vhash: u64,
@@ -328,7 +334,7 @@ pub fn parse_report(b: &[u8]) -> Option<BatchReport> {
         let spawn_errno = r.u32() as i32;
         let join_class = r.u8();
         let canary = r.u8();
-        r.u8();
+        let woke = r.u8();
         r.u8();
         let run = r.u32();
         let tid = r.u32();
@@ -338,7 +344,7 @@ pub fn parse_report(b: &[u8]) -> Option<BatchReport> {
         let buf_join = r.u64();
         let buf_drain = r.u64();
         let canary_addr = r.u64();
-        rep.specs.push(SpecRep { spawn_errno, join_class, canary, run, tid, vhash, vlen, closure_size, buf_join, buf_drain, canary_addr });
+        rep.specs.push(SpecRep { spawn_errno, join_class, canary, woke, run, tid, vhash, vlen, closure_size, buf_join, buf_drain, canary_addr });
     }
     let nlog = r.u32() as usize;
     if nlog > 1 << 16 {
